@@ -5,12 +5,12 @@ open Lean
 namespace Gnpy.Drv.C16
 open Gnpy.Plan
 
-/-- successive calls of one amplifier object: stored effective gain after every call -/
+/-- successive calls of one amplifier object (set gain = the designed gain): effective gain after every call -/
 def edfaSeqH (j : Json) : R Json := do
   let g ← fF j "eff_gain"
   let pmax ← fF j "p_max"
   let pins ← fList getF j "pin_db"
-  let mut e : Edfa Float := { effGain := g, pMax := pmax }
+  let mut e : Edfa Float := { setGain := g, effGain := g, pMax := pmax }
   let mut out : List Json := []
   for p in pins do
     let (e', po) := e.call p
@@ -21,7 +21,8 @@ def edfaSeqH (j : Json) : R Json := do
 /-- a line of (loss, amplifier) spans, a batch of launch powers: with and without the per-request copy -/
 def lineH (j : Json) : R Json := do
   let spans ← fList (fun s => do
-    return ((← fF s "loss"), ({ effGain := ← fF s "eff_gain", pMax := ← fF s "p_max" } : Edfa Float))) j "spans"
+    let g ← fF s "eff_gain"
+    return ((← fF s "loss"), ({ setGain := g, effGain := g, pMax := ← fF s "p_max" } : Edfa Float))) j "spans"
   let ps ← fList getF j "powers"
   let c := planCopy spans ps
   let s := planShared spans ps
